@@ -721,7 +721,15 @@ package graphql
 //@ func getFieldDef
 //@   trusted
 //@   assigns nothing
+// C09: unvalidated documents reach planning; a type condition naming an unknown type resolves to
+// a nil Type, which must be answered (no match), not called.
 //@ func planFragmentMatches
+//@   props C09
+//@   opt safety.only=nilcall
+//@   assigns nothing
+//@   nopanic
+//@   ensures typeConditionAST == nil ==> result
+//@ func Schema.IsPossibleType
 //@   trusted
 //@   assigns nothing
 
